@@ -30,7 +30,7 @@ SPEC = dict(
     manifest=dict(
         category='proof',
         text="crc.py's integer loops and tables are translated to Lean on every run; Lean proves, for every byte string, that the translated code equals the bit-at-a-time CRC-16/XMODEM and CRC-32C definitions (256-entry table obligations by kernel evaluation, per-byte lemma by xor-linearity, induction over the input). Also proved for every record and every amount of zero padding: crc16(record || crc16(record) || zeros) = 0000 and crc32c(record || un-inverted little-endian register || zeros) = ffffffff, for the bitwise definition and for the translated code (c18_*_framed, c18_*_framed_code) - the register-state inputs the harness samples.",
-        level_note='Trusted: Lean kernel (propext, Classical.choice, Quot.sound only), the 150-line Python->Lean expression translator, Spec/Crc.lean as the CRC definitions, int.to_bytes modelled by hand. The correspondence (driver vs library vs independent bitwise oracle) additionally ties the compiled model to the library on ~38k (quick) / 250k (thorough) inputs, among them ~10k messages solved (with the bitwise definition) to put the register into a special state (0, all ones, 1, top bit, initial value ...) at every position up to 200 and around 256..65536 / the sizes crc.py itself mentions, followed by zero bytes and arbitrary tails.',
+        level_note='Trusted: Lean kernel (propext, Classical.choice, Quot.sound only), the 150-line Python->Lean expression translator, Spec/Crc.lean as the CRC definitions, int.to_bytes modelled by hand. The correspondence (driver vs library vs independent bitwise oracle) additionally ties the compiled model to the library on ~38k (quick) / ~800k (thorough) inputs, among them ~10k messages solved (with the bitwise definition) to put the register into a special state (0, all ones, 1, top bit, initial value ...) at every position up to 200 and around 256..65536 / the sizes crc.py itself mentions, followed by zero bytes and arbitrary tails.',
         technique='Lean 4 proof over a model regenerated from source + differential correspondence',
     ),
     translators=[('crc.py->Generated/Crc.lean', tr.regenerate)],
